@@ -60,9 +60,13 @@ type Str struct {
 	s      string
 	sym    []*smt.Term
 	opaque bool
+	doc    *jsonDoc // opaque text of a symbolic JSON document (see jsonmodel.go)
 }
 
 func (x Str) Len() int {
+	if x.doc != nil {
+		return x.doc.n
+	}
 	if x.sym != nil {
 		return len(x.sym)
 	}
